@@ -299,6 +299,12 @@ func c16Facts(c *StructCase) (sharedNameOneSided bool, twoLevels bool, overrideO
 func TestC16(t *testing.T) {
 	rapid.Check(t, func(t *rapid.T) {
 		c := genC16Case(t)
+		if c.Entry == "VStruct" && rapid.IntRange(0, 3).Draw(t, "twice") == 2 {
+			// every rule set is registered twice for its target (decoy first), and a decoy set is handed over
+			// with two type tokens, which registers nothing
+			c.Twice = true
+			ev.Class("decoy registrations (replaced set, multi-token call)")
+		}
 		msg, res, skipped := checkC16(c)
 		if skipped != "" {
 			ev.Excluded(skipped)
